@@ -305,12 +305,82 @@ func registerModels(P *Program) {
 	// sync/atomic on plain cells
 	m["sync/atomic.AddUint64"] = func(ex *Exec, fn *ssa.Function, args []Value) (Value, bool) {
 		p := args[0].(Pointer)
+		ex.yieldPoint(&access{c: p.C, write: true, atomic: true}, nil)
 		v := smt.Wrap(smt.Add(term(p.C.V), term(args[1])), false, 64)
 		p.C.V = v
 		return v, true
 	}
 	m["sync/atomic.LoadUint64"] = func(ex *Exec, fn *ssa.Function, args []Value) (Value, bool) {
 		return args[0].(Pointer).C.V, true
+	}
+	// sync primitives (state kept in the opaque zero value of the object)
+	syncObj := func(ex *Exec, v Value) *Opaque {
+		p, ok := v.(Pointer)
+		if !ok || p.C == nil {
+			ex.goPanic("nil pointer dereference (sync primitive)")
+		}
+		o, ok := p.C.V.(*Opaque)
+		if !ok {
+			ex.unsupported("sync primitive stored as %T", p.C.V)
+		}
+		if o.Data == nil {
+			o.Data = new(int)
+		}
+		return o
+	}
+	m["(*sync.WaitGroup).Add"] = func(ex *Exec, fn *ssa.Function, args []Value) (Value, bool) {
+		o := syncObj(ex, args[0])
+		d, ok := term(args[1]).ConstInt64()
+		if !ok {
+			ex.unsupported("WaitGroup.Add with symbolic delta")
+		}
+		ex.yieldPoint(nil, nil)
+		*(o.Data.(*int)) += int(d)
+		if *(o.Data.(*int)) < 0 {
+			ex.goPanic("sync: negative WaitGroup counter")
+		}
+		return nil, true
+	}
+	m["(*sync.WaitGroup).Done"] = func(ex *Exec, fn *ssa.Function, args []Value) (Value, bool) {
+		o := syncObj(ex, args[0])
+		ex.yieldPoint(nil, nil)
+		*(o.Data.(*int))--
+		if *(o.Data.(*int)) < 0 {
+			ex.goPanic("sync: negative WaitGroup counter")
+		}
+		return nil, true
+	}
+	m["(*sync.WaitGroup).Wait"] = func(ex *Exec, fn *ssa.Function, args []Value) (Value, bool) {
+		o := syncObj(ex, args[0])
+		ex.yieldPoint(nil, func() bool { return *(o.Data.(*int)) == 0 })
+		return nil, true
+	}
+	m["(*sync.Mutex).Lock"] = func(ex *Exec, fn *ssa.Function, args []Value) (Value, bool) {
+		o := syncObj(ex, args[0])
+		ex.yieldPoint(nil, func() bool { return *(o.Data.(*int)) == 0 })
+		*(o.Data.(*int)) = 1
+		return nil, true
+	}
+	m["(*sync.Mutex).Unlock"] = func(ex *Exec, fn *ssa.Function, args []Value) (Value, bool) {
+		o := syncObj(ex, args[0])
+		if *(o.Data.(*int)) == 0 {
+			ex.goPanic("sync: unlock of unlocked mutex")
+		}
+		*(o.Data.(*int)) = 0
+		ex.yieldPoint(nil, nil)
+		return nil, true
+	}
+	m["(*sync.Once).Do"] = func(ex *Exec, fn *ssa.Function, args []Value) (Value, bool) {
+		o := syncObj(ex, args[0])
+		// 0: not run, 1: running (others wait), 2: done
+		ex.yieldPoint(nil, func() bool { return *(o.Data.(*int)) != 1 })
+		if *(o.Data.(*int)) == 0 {
+			*(o.Data.(*int)) = 1
+			ex.callValue(args[1], nil)
+			*(o.Data.(*int)) = 2
+			ex.yieldPoint(nil, nil)
+		}
+		return nil, true
 	}
 	m["runtime.NumCPU"] = func(ex *Exec, fn *ssa.Function, args []Value) (Value, bool) { return smt.I64(4), true }
 	m["runtime.GOMAXPROCS"] = func(ex *Exec, fn *ssa.Function, args []Value) (Value, bool) { return smt.I64(4), true }
